@@ -153,4 +153,18 @@ PROPS["C10"] = dict(
     trusted=["verif hook VerifNewSessionWithCerts (forged cache entries)", "smx509.Verify as oracle"],
 )
 
+PROPS["C08"] = dict(
+    technique="Coq proof of language equality (automaton of the handshake code = the standard's flows, by an invariant over all event sequences, unbounded length) for client and server of both stacks + correspondence: a puppet peer that keeps its own transcript and keys consistent sends enumerated / mutated sequences to the real endpoints",
+    level_text="Theorems: for every sequence of received records of any length the endpoint completes iff the sequence realises one of the standard's flows with valid contents and at most 16 "
+               "consecutive warning alerts (client and server, ECC/ECDHE, full/resumed; datagram stack: with cookie rounds, tolerated retransmitted ClientHellos and silently dropped records); "
+               "completion implies the received prefix is item for item a legal flow; no application data before completion; errors are final.  Legal flows, every single omission, "
+               "duplication, transposition, insertion, invalid-content variant, the 16/17 warning boundary and a pruned enumeration from the initial state are played by the puppet peer "
+               "against the real endpoints of both stacks and compared with the automaton and with the language.",
+    level_note="Trusted: Coq kernel + vm_compute; the event abstraction (one record = one event; `ok` = the contents pass the receiver's checks, which C02/C07 analyse); the puppet peer. "
+               "F12 (dtlcp decrypts an old-epoch record with the new keys before the epoch check, so a retransmitted epoch-0 record after ChangeCipherSpec kills the handshake) is a known finding.",
+    code_names={1: "completed-on-an-order-the-standard-does-not-allow", 2: "refused-a-legal-flow", 3: "old-epoch-record-after-CCS-is-fatal", "hang": "hang"},
+    assumptions=["handshake messages arrive whole in their own record (fragmentation is C14/C17's subject)"],
+    trusted=["harness/internal/puppet", "verif hooks VerifClientHello / VerifGenerateCookie (valid cookies for the datagram server)"],
+)
+
 NOT_YET = {}
